@@ -9,6 +9,8 @@
 //	dialrace <id> <ms>             DialAsync with a dial timeout whose connect completes (EPOLLOUT, SO_ERROR 0) while DialAsync is
 //	                               still between registering the descriptor and arming the timeout; then the timeout elapses
 //	addx <id> <tcp|unix>           AddConn of a conn that was closed before (Close, then AddConn)
+//	hupbusy <id> <p1> <p2>         data event, then — with AsyncReadInPoller while the read task is still inside the data
+//	                               callback of p1 — more data, the peer's FIN and the IN|RDHUP event; then the task goes on
 //	addudp <id>                    UDP listener around a virtual descriptor
 //	dgram <id> <addr> <payload>    datagram queued on the listener (sessions get ids 100*id+k in order of opening)
 //	dial <id> <inprog|now|refused> <timeout ms>   DialAsync; connect(2) is answered EINPROGRESS / 0 / ECONNREFUSED
@@ -43,6 +45,7 @@ import (
 	"strconv"
 	"strings"
 	"sync"
+	"sync/atomic"
 	"syscall"
 	"time"
 
@@ -77,16 +80,20 @@ type conn struct {
 	dialOK  bool // the scripted/real kernel says the connect succeeded
 	flipped bool
 	jobs    int
-	preOpen bool // a close notification arrived before the open notification
-	held    bool // the (closed) descriptor number is kept occupied so that nothing else can get it
-	cio     bool // close the conn from inside its open notification
-	eof     bool // the peer's FIN is in the (virtual) receive queue
-	leaked  bool // opened without a close notification (reported): Stop would hang
-	soSet   bool // the kernel's verdict on the connect (SO_ERROR) is fixed: the first dev decides
+	preOpen bool          // a close notification arrived before the open notification
+	held    bool          // the (closed) descriptor number is kept occupied so that nothing else can get it
+	cio     bool          // close the conn from inside its open notification
+	eof     bool          // the peer's FIN is in the (virtual) receive queue
+	leaked  bool          // opened without a close notification (reported): Stop would hang
+	soSet   bool          // the kernel's verdict on the connect (SO_ERROR) is fixed: the first dev decides
+	hold    chan struct{} // the data callback of this conn waits here (hupbusy)
+	inData  chan struct{} // … after it said so here
 	soe     int
 }
 
 type sess struct {
+	async   bool  // AsyncReadInPoller
+	tasks   int32 // read tasks handed to the IO executor and not finished yet
 	mode    string
 	np      int
 	maxwb   int
@@ -226,10 +233,10 @@ func fdCensus() map[int]bool {
 
 // ---------------------------------------------------------------- session
 
-func newSess(mode string, np, maxwb int, listen bool) (*sess, error) {
-	s := &sess{mode: mode, np: np, maxwb: maxwb, conns: map[int]*conn{}, byPtr: map[*nbio.Conn]*conn{}, byFd: map[int]*conn{}, nsess: map[int]int{}}
+func newSess(mode string, np, maxwb int, listen, async bool) (*sess, error) {
+	s := &sess{async: async, mode: mode, np: np, maxwb: maxwb, conns: map[int]*conn{}, byPtr: map[*nbio.Conn]*conn{}, byFd: map[int]*conn{}, nsess: map[int]int{}}
 	s.fds0 = fdCensus()
-	conf := nbio.Config{NPoller: np, MaxWriteBufferSize: maxwb}
+	conf := nbio.Config{NPoller: np, MaxWriteBufferSize: maxwb, AsyncReadInPoller: async}
 	if listen {
 		conf.Network, conf.Addrs = "tcp", []string{"127.0.0.1:0"}
 	}
@@ -250,6 +257,17 @@ func newSess(mode string, np, maxwb int, listen bool) (*sess, error) {
 	curMu.Unlock()
 	if err := g.Start(); err != nil {
 		return nil, err
+	}
+	if async {
+		// the engine's own IO task pool, wrapped only to know when the read tasks are done
+		orig := g.IOExecute
+		g.IOExecute = func(f func(*[]byte)) {
+			atomic.AddInt32(&s.tasks, 1)
+			orig(func(b *[]byte) {
+				defer atomic.AddInt32(&s.tasks, -1)
+				f(b)
+			})
+		}
 	}
 	s.addrs = g.Addrs
 	// A Stop that overtakes the start of a poller / acceptor goroutine never terminates it (the loops reset
@@ -352,6 +370,18 @@ func (s *sess) onData(nc *nbio.Conn, data []byte) {
 	ci := s.byPtr[nc]
 	if ci == nil {
 		return
+	}
+	if hold := ci.hold; hold != nil {
+		// hupbusy: the read task stays inside this callback until the op has delivered the hang-up event
+		ci.hold = nil
+		in := ci.inData
+		s.mu.Unlock()
+		in <- struct{}{}
+		select {
+		case <-hold:
+		case <-time.After(20 * time.Second):
+		}
+		s.mu.Lock()
 	}
 	if len(ci.closes) > 0 {
 		s.orc = append(s.orc, fmt.Sprintf("c03-close-once conn %d (%s): %d bytes handed to the data callback after its close notification (%s)", ci.id, ci.kind, len(data), ci.closes[0]))
@@ -457,8 +487,26 @@ func (s *sess) finSeen(e *lp.Exec, ci *conn, scripted uint32, ret string) {
 }
 
 func (s *sess) inject(ci *conn, fl uint32) bool {
+	ok := s.injectNoWait(ci, fl)
+	s.waitTasks()
+	return ok
+}
+
+// injectNoWait returns when the poller has handled the batch; read tasks it started may still run
+func (s *sess) injectNoWait(ci *conn, fl uint32) bool {
 	epfd := s.g.VerifEpfd(ci.fd % s.np)
 	return vsys.InjectTimeout(epfd, []syscall.EpollEvent{{Fd: int32(ci.fd), Events: fl}}, 60*time.Second)
+}
+
+// waitTasks: AsyncReadInPoller — the read tasks started so far have returned (virtual descriptors: a task only ends
+// when it has nothing left to do; real sockets are waited for by their ops)
+func (s *sess) waitTasks() {
+	if !s.async {
+		return
+	}
+	for i := 0; i < 20000 && atomic.LoadInt32(&s.tasks) != 0; i++ {
+		time.Sleep(500 * time.Microsecond)
+	}
 }
 
 func (s *sess) connState(ci *conn) (bool, string, int, int) {
@@ -496,6 +544,7 @@ func (s *sess) reserve() {
 }
 
 func (s *sess) result(e *lp.Exec, what string, ret string, ci *conn, logd int) {
+	s.waitTasks()
 	s.settle()
 	s.reserve()
 	s.mu.Lock()
@@ -735,10 +784,11 @@ func exec(e *lp.Exec) {
 		if f[0] == "C" {
 			finish()
 			e.P("> %s", line)
-			if len(f) != 5 {
+			if len(f) != 5 && len(f) != 6 {
 				e.P("bad-op")
 				continue
 			}
+			async := len(f) == 6 && f[5] == "1"
 			np, _ := strconv.Atoi(f[2])
 			mw, _ := strconv.Atoi(f[3])
 			if !(f[1] == "lt" || f[1] == "et" || f[1] == "os") || np <= 0 {
@@ -746,7 +796,7 @@ func exec(e *lp.Exec) {
 				continue
 			}
 			var err error
-			s, err = newSess(f[1], np, mw, f[4] == "1")
+			s, err = newSess(f[1], np, mw, f[4] == "1", async)
 			if err != nil {
 				e.P("bad-op start %v", err)
 				s = nil
@@ -755,7 +805,8 @@ func exec(e *lp.Exec) {
 			s.file = tmp
 			key.Reset()
 			nontrivial = false
-			fmt.Fprintf(&key, "%s/%v|", f[1], mw > 0)
+			fmt.Fprintf(&key, "%s/%v/%v|", f[1], mw > 0, async)
+			e.Count("async", fmt.Sprint(async))
 			e.Count("mode", f[1])
 			e.P("ok")
 			continue
@@ -1006,6 +1057,63 @@ func exec(e *lp.Exec) {
 			s.firstCause(e, ci, was, "eof", "epipe", "reset")
 			s.result(e, "ev", ret, ci, 0)
 			fmt.Fprintf(&key, "e%x,", fl)
+			nontrivial = true
+		case "hupbusy":
+			if len(f) != 4 || ci == nil || ci.v == nil || ci.c == nil || ci.kind != "add" {
+				bad()
+				continue
+			}
+			was := s.isClosed(ci)
+			ret := "nil"
+			if s.g.VerifConnAt(ci.fd) != ci.c {
+				ret = "gone"
+			} else {
+				// the read task can be held only where it runs beside the poller and further events are delivered to the
+				// poller meanwhile (not with EPOLLONESHOT: the descriptor is disarmed while the task runs)
+				busy := s.async && s.mode != "os"
+				if busy {
+					s.mu.Lock()
+					ci.hold, ci.inData = make(chan struct{}), make(chan struct{}, 1)
+					hold, in := ci.hold, ci.inData
+					s.mu.Unlock()
+					ci.v.Push(lp.Payload(f[2]))
+					if !s.injectNoWait(ci, s.kernelFlags(ci, evIn)) {
+						ret = "stuck"
+					}
+					select {
+					case <-in:
+					case <-time.After(3 * time.Second):
+						// nothing was delivered (the conn did not read): go on without the overlap
+					}
+					ci.v.Push(lp.Payload(f[3]))
+					ci.v.SetRead(true, 0, 0)
+					ci.eof = true
+					if !s.injectNoWait(ci, s.kernelFlags(ci, evIn|evRdhup)) {
+						ret = "stuck"
+					}
+					s.mu.Lock()
+					ci.hold = nil
+					s.mu.Unlock()
+					close(hold)
+					s.waitTasks()
+				} else {
+					ci.v.Push(lp.Payload(f[2]))
+					if !s.inject(ci, s.kernelFlags(ci, evIn)) {
+						ret = "stuck"
+					}
+					ci.v.Push(lp.Payload(f[3]))
+					ci.v.SetRead(true, 0, 0)
+					ci.eof = true
+					if !s.inject(ci, s.kernelFlags(ci, evIn|evRdhup)) {
+						ret = "stuck"
+					}
+				}
+			}
+			e.P("> %s", line)
+			s.finSeen(e, ci, evIn|evRdhup, ret)
+			s.firstCause(e, ci, was, "eof", "reset")
+			s.result(e, "hupbusy", ret, ci, 0)
+			key.WriteString("hb,")
 			nontrivial = true
 		case "push", "eof", "rderr":
 			if ci == nil || ci.v == nil || ci.c == nil || ci.kind == "sess" {
@@ -1392,7 +1500,8 @@ func gen(g *lp.Gen) {
 		np := g.PickInt(1, 2)
 		maxwb := g.PickInt(0, 0, 100)
 		listen := g.Chance(1, 4)
-		g.P("C %s %d %d %d", mode, np, maxwb, b2i(listen))
+		async := g.Chance(1, 3)
+		g.P("C %s %d %d %d %d", mode, np, maxwb, b2i(listen), b2i(async))
 		type ci struct {
 			kind   string
 			typ    string
@@ -1540,6 +1649,8 @@ func gen(g *lp.Gen) {
 						g.P("push %d @%d:1", id, 1+g.Intn(30))
 					}
 					g.P("ev %d in -", id)
+				case r < 49:
+					g.P("hupbusy %d @%d:1 @%d:2", id, 1+g.Intn(30), 1+g.Intn(30))
 				case r < 52:
 					g.P("%s %d", g.Pick("eof", "rderr"), id)
 					g.P("ev %d %s -", id, g.Pick("in", "in+rdhup", "rdhup", "hup+err", "in+hup+err"))
